@@ -68,7 +68,7 @@ def observe(traces: List[Dict[str, Any]], shards: int = 8) -> List[Dict[str, int
     """Per trace: {clause: first event index at which it is false}."""
     if not traces:
         return []
-    scratch = tempfile.mkdtemp(prefix="verif-obs-")
+    scratch = tlc.scratch_dir("obs")
     try:
         n = len(traces)
         shards = max(1, min(shards, n // 50 + 1))
@@ -108,7 +108,7 @@ def conform(traces: List[Dict[str, Any]], shards: int = 12, switches: Optional[D
     if not traces:
         return []
     sw = switches or tree_switches()
-    scratch = tempfile.mkdtemp(prefix="verif-conf-")
+    scratch = tlc.scratch_dir("conf")
     try:
         n = len(traces)
         shards = max(1, min(shards, n // 10 + 1))
@@ -162,7 +162,7 @@ def mc(cfgs: List[Dict[str, Any]], outcomes: List[str], max_now: int, allowed: L
        workers: int = 16, timeout: int = 3000, properties: Optional[List[str]] = None,
        fair: bool = False, coverage: bool = False) -> Dict[str, Any]:
     sw = switches or tree_switches()
-    scratch = tempfile.mkdtemp(prefix="verif-mc-")
+    scratch = tlc.scratch_dir("mc")
     try:
         path = os.path.join(scratch, "cfgs.json")
         with open(path, "w") as f:
@@ -190,7 +190,7 @@ def simulate(cfgs: List[Dict[str, Any]], num: int, depth: int, seed: int, outcom
              switches: Optional[Dict[str, bool]] = None) -> List[Dict[str, Any]]:
     """TLC -simulate behaviours of the model -> scenarios (environment moves)."""
     sw = switches or tree_switches()
-    scratch = tempfile.mkdtemp(prefix="verif-sim-")
+    scratch = tlc.scratch_dir("sim")
     try:
         path = os.path.join(scratch, "cfgs.json")
         ncfgs = [normalize(c) for c in cfgs]
